@@ -54,6 +54,16 @@ Proof.
   generalize (seq 0 (length l)). intros ps. induction ps as [|p ps IHp]; [reflexivity|]. cbn [map flat_map nth]. rewrite IHp. reflexivity.
 Qed.
 
+Lemma map_nth_seq {A B} (f : A -> B) (d : A) : forall l, map f l = map (fun p => f (nth p l d)) (seq 0 (length l)).
+Proof.
+  induction l as [|a l IH]; [reflexivity|]. cbn [length seq map nth]. f_equal. rewrite <- seq_shift, map_map. exact IH.
+Qed.
+
+Lemma flat_map_length_le1 {A B} (g : A -> list B) l : (forall a, (length (g a) <= 1)%nat) -> (length (flat_map g l) <= length l)%nat.
+Proof.
+  intros H. induction l as [|a l IH]; [apply Nat.le_refl|]. cbn [flat_map length]. rewrite app_length. pose proof (H a). lia.
+Qed.
+
 Fixpoint posof (levs : list Z) (lev : Z) : nat :=
   match levs with [] => O | x :: r => if x =? lev then O else S (posof r lev) end.
 Lemma posof_nth d : forall levs p, NoDup levs -> (p < length levs)%nat -> posof levs (nth p levs d) = p.
@@ -198,6 +208,9 @@ Section Params.
   Lemma lparams_lev : forall ls L h, map plev (lparams L ls h) = map fst ls.
   Proof. induction ls as [|[lev D] ls IH]; intros L h; [reflexivity|]. cbn [lparams map]. rewrite IH. reflexivity. Qed.
 
+  Lemma lparams_D : forall ls L h, map pD (lparams L ls h) = map snd ls.
+  Proof. induction ls as [|[lev D] ls IH]; intros L h; [reflexivity|]. cbn [lparams map]. rewrite IH. reflexivity. Qed.
+
   Lemma lparams_length ls L h : length (lparams L ls h) = length ls.
   Proof. rewrite <- (map_length plev), lparams_lev, map_length. reflexivity. Qed.
 
@@ -334,6 +347,20 @@ Section NarySystem.
     unfold lsends. rewrite map_map. apply map_ext_in. intros [[d t] m] Hin. cbn [fst snd].
     apply nsends_In in Hin. destruct Hin as [j [_ [_ [_ E]]]]. injection E as _ -> _. reflexivity.
   Qed.
+
+  (* a closed bound for nary_steps: a rank has at most D sends and 2 D receives at a level of width D *)
+  Lemma nary_steps_bound : (nary_steps <= Z.to_nat G * list_sum (map (fun x => 3 * Z.to_nat (pD x)) params))%nat.
+  Proof.
+    unfold nary_steps. rewrite (map_nth_seq (fun x => (3 * Z.to_nat (pD x))%nat) dprm params).
+    rewrite <- (ranks_length G). apply total_len_bound. intros r l Hr Hl. apply in_ranks in Hr.
+    destruct (nth_params l Hl) as [A [B C]]. cbv zeta in A, B, C. unfold nsendsI, nsrcsI. pose proof Hr as Hr'. apply inr_spec in Hr'. rewrite Hr'. cbv zeta.
+    set (x := nth l params dprm) in *.
+    assert (H1 : (length (lsends G (pL x) (pD x) R payf0 (ph x) (plev x) r) <= Z.to_nat (pD x))%nat).
+    { unfold lsends. rewrite map_length. unfold nsends. rewrite <- (ranks_length (pD x)). apply flat_map_length_le1.
+      intros j. destruct (j =? _); [cbn; lia|]. cbv zeta. destruct (_ <? 0); cbn; lia. }
+    rewrite (senders_length G _ _ R payf0 A B HG C (fun _ t => t) (hid_inv G _) r Hr).
+    pose proof (nrecvs_ge G _ _ R payf0 A B HG C (fun _ t => t) (hid_inv G _) r Hr) as [_ H2]. lia.
+  Qed.
 End NarySystem.
 
 Lemma nary_ls_levels depth ntop nint nbot : NoDup (map fst (nary_ls depth ntop nint nbot)).
@@ -398,10 +425,24 @@ Section NaryEverySchedule.
         rewrite Hs. reflexivity. }
     intros n s Hrun.
     pose proof (all_schedules (length params) (ntagI params) (nsendsI G R params) (nsrcsI G params) (nwireI G R params) nnamedI
-                  (nary_prog G R ntop nint nbot sz0) (nary_out G R) (ranks G) (ranks_NoDup G) (I_out G R params) (I_tag R 0 params Hlevs)
+                  (nary_prog G R ntop nint nbot sz0) (nary_out G R) (ranks G) (ranks_NoDup G) (I_out G R params) (compat_of_injective _ _ _ _ (I_tag R 0 params Hlevs))
                   (I_dst G R params HG Hparams) (I_src G R params Hparams) (I_src0 G R params HG Hparams)
                   (I_match1 G R params HG Hparams) (I_match2 G R params HG Hparams) HroundI n s Hrun) as [A [B [C E]]].
     split; [exact A|]. split; [exact B|]. split; [exact C|]. intros Hf. destruct (E Hf) as [E1 E2]. split; [|exact E2].
     intros r Hr. rewrite E1. unfold nary_out. apply inr_spec in Hr. rewrite Hr. reflexivity.
+  Qed.
+
+  (* the number of steps in closed form: at most 3 * (sum of the widths of the levels) per rank *)
+  Theorem nary_steps_le depth prod : nary_depth 64 G nbot ntop nint = Some (depth, prod) ->
+    (nary_steps G R (nary_params depth) <= Z.to_nat G * list_sum (map (fun D => 3 * Z.to_nat D) (map snd (nary_ls depth ntop nint nbot))))%nat.
+  Proof.
+    intros Hdep0. destruct (nary_depth_spec G ntop nint nbot HG Ht Hi Hb HbB Hbt HGn) as [depth' [prod' [Hdep [Hd [Hprod [Hcov _]]]]]].
+    rewrite Hdep0 in Hdep. injection Hdep as <- <-.
+    assert (Hpl : prodl (map snd (nary_ls depth ntop nint nbot)) = prod) by (unfold nary_ls; rewrite map_rev, prodl_rev; symmetry; exact Hprod).
+    assert (Hparams : forall x, In x (nary_params depth) -> 0 < pL x /\ 2 <= pD x /\ pD x * pL x <= BIG).
+    { intros x Hx. apply (lparams_ok G R (nary_ls depth ntop nint nbot) 1 h0); [|lia|rewrite Hpl; lia|exact Hx].
+      intros lev D Hin. apply (nary_ls_widths depth ntop nint nbot Ht Hi Hb ltac:(lia) lev D Hin). }
+    pose proof (nary_steps_bound G R (nary_params depth) HG Hparams) as H.
+    rewrite <- (lparams_D G (nary_ls depth ntop nint nbot) 1 h0), map_map. exact H.
   Qed.
 End NaryEverySchedule.
